@@ -29,6 +29,8 @@ mod k_resp;
 mod k_req;
 #[cfg(feature = "k_gen")]
 mod k_lex;
+#[cfg(feature = "k_gen")]
+mod k_route;
 #[cfg(feature = "k_dflt")]
 mod k_dflt;
 #[cfg(feature = "k_enum")]
@@ -78,6 +80,8 @@ fn dispatch(op: &str, input: &mut Value) -> OpResult {
     "inject" => k_resp::eval_inject(op, input),
     #[cfg(feature = "k_gen")]
     "lex" => k_lex::eval(op, input),
+    #[cfg(feature = "k_gen")]
+    "route" => k_route::eval(op, input),
     #[cfg(feature = "k_gen")]
     "flags" => k_resp::eval_flags(op, input),
     #[cfg(feature = "k_gen")]
